@@ -529,10 +529,23 @@ func mavenTraits(w *World, name string) []string {
 		for _, pf := range pom.Profiles {
 			lists = append(lists, pf.Deps)
 		}
-		for _, l := range lists {
+		for li, l := range lists {
 			for _, d := range l {
 				if d.Name() != name {
 					continue
+				}
+				if li >= 2 && strings.Contains(d.V, "${") {
+					// a profile declaration taking its version from a property that a
+					// declaration of another artifact outside the profile uses as well
+					for _, pom2 := range []*Pom{w.Manifest.Pom, w.Manifest.Parent} {
+						if pom2 != nil {
+							for _, d2 := range append(append([]MDep{}, pom2.Deps...), pom2.Mgmt...) {
+								if d2.V == d.V && d2.Name() != name {
+									f = append(f, "property-shared-with-profile")
+								}
+							}
+						}
+					}
 				}
 				decls++
 				versions[interpolate(d.V, props)] = true
@@ -573,6 +586,17 @@ func mavenTraits(w *World, name string) []string {
 					}
 					if users > 1 {
 						f = append(f, "shared-property")
+					}
+					for _, pom2 := range []*Pom{w.Manifest.Pom, w.Manifest.Parent} {
+						if pom2 != nil {
+							for _, pf := range pom2.Profiles {
+								for _, d2 := range pf.Deps {
+									if d2.V == d.V && d2.Name() != name {
+										f = append(f, "property-shared-with-profile")
+									}
+								}
+							}
+						}
 					}
 				}
 			}
